@@ -36,6 +36,10 @@ type context struct {
 	// the rel attribute has not already been parsed in the current element, or if the
 	// value of the rel attribute cannot be determined at parse time.
 	linkRel string
+	// nameOpen reports that the template text seen so far ends directly after the
+	// characters of a tag name or of an attribute name: whether that name is complete
+	// depends on the text that follows the template node. Ignored by eq.
+	nameOpen bool
 }
 
 // eq returns whether Context c is equal to Context d.
@@ -138,6 +142,12 @@ type element struct {
 	// names can also contain empty strings, which represent joined contexts with no element name.
 	// names will be empty if no context joining occurred.
 	names []string
+	// split reports that a template node was found inside or directly after the tag name,
+	// followed by further name characters: name is not the name a browser sees.
+	split bool
+	// attrSplit reports the same for the name of an attribute seen so far in the current tag:
+	// the attributes of the tag are not the ones a browser sees.
+	attrSplit bool
 }
 
 // eq reports whether a and b have the same name. All other fields are ignored.
@@ -172,6 +182,9 @@ type attr struct {
 	// names can also contain empty strings, which represent joined contexts with no attribute name.
 	// names will be empty if no context joining occurred.
 	names []string
+	// split reports that a template node was found inside or directly after the attribute
+	// name, followed by further name characters: name is not the name a browser sees.
+	split bool
 }
 
 // eq reports whether a and b have the same name. All other fields are ignored.
